@@ -19,7 +19,7 @@ Not decided: equality with native search results (same code path, C23), what pro
 import re
 from collections import defaultdict
 from .lib.hir import *
-from .lib.pathcond import site_conditions, implied, collect_binds, lit_has, arm_lit, render, lits_with
+from .lib.pathcond import site_conditions, implied, collect_binds, lit_has, render, lits_with, leaf_tokens
 
 META = dict(
     technique="call-graph reachability over MIR call facts (with dyn over-approximation and positive controls) + sink path-conditions on HIR",
@@ -330,7 +330,6 @@ def run(ctx):
                       f"the anonymous branch of auth_ldap binds {[ex_s(e) for e in eff]} instead of the constant anonymous session",
                       file=al["file"], line=s.get("line"))
         else:
-            l = arm_lit(lits, "core::option::Option::Some")
             ok = lit_has(lits, True, "field", "d_ldap_allow_unix_pw_bind") and any(
                 lf[1] in ("arm", "let") and has_token(tokens(lf[2][0] if lf[1] == "arm" else lf[2][1]), "call", "auth_with_unix_pass")
                 and has_token(tokens(lf[2][1] if lf[1] == "arm" else lf[2][0]), "def", "core::option::Option::Some")
@@ -423,7 +422,6 @@ def run(ctx):
 
 
 def leaf_toks(lf):
-    from .lib.pathcond import leaf_tokens
     return leaf_tokens(lf)
 
 
